@@ -170,6 +170,15 @@ def inner_script(s: Spend, kind, segwit):
                              (b"\x63\x51\x67\x00\x68", [b"\x02"]), (b"\xb1\x75\x51", []), (b"\x75\x51", [bytes(521)]),
                              (b"\x75\x51", [bytes(520)]), (b"\x6a", []), (b"\x51\x69", [b"\x01"])])
         return sc, lambda: list(st)
+    if kind == "locktime":
+        if rng.random() < 0.5:
+            o = rng.choice([s.lt, s.lt - 1, s.lt + 1, G.LT_T - 1, G.LT_T, G.LT_T + 1, 0])
+            sc = G.push_num(max(o, -1)) + b"\xb1\x75\x51"
+        else:
+            m = s.seq & 0x40FFFF
+            o = rng.choice([m, m - 1, m + 1, 0x400000, 0x3FFFFF, 0x80000000, 0x80000000 | m, 0])
+            sc = G.push_num(max(o, -1)) + b"\xb2\x75\x51"
+        return sc, lambda: []
     if kind == "codesep":
         q = KEYS[1]
         sc = b"\x51\x75\xab" + p2pk(q)
@@ -180,7 +189,8 @@ def inner_script(s: Spend, kind, segwit):
 
 def build(rng):
     """one spend: (label, scriptSig, scriptPubKey, witness bottom-first, amount, lt, seq, ver)"""
-    lt, seq, ver = rng.choice([(0, 0xFFFFFFFF, 1), (0, 0xFFFFFFFE, 2), (10, 5, 2)])
+    lt, seq, ver = rng.choice([(0, 0xFFFFFFFF, 1), (0, 0xFFFFFFFE, 2), (10, 5, 2),
+                               (rng.choice(G.LOCKTIMES), rng.choice(G.SEQUENCES), rng.choice(G.VERSIONS))])
     s = Spend(rng, lt, seq, ver, rng.choice([0, 1, 12345678, 21 * 10**14]))
     form = rng.choice(["p2pk", "p2pkh", "ms", "p2sh", "p2sh", "p2wpkh", "p2wpkh", "p2wsh", "p2wsh", "p2sh-p2wpkh",
                        "p2sh-p2wsh", "p2sh-p2wsh", "p2tr-key", "p2tr-key", "p2tr-script", "p2tr-script", "p2tr-script",
@@ -199,10 +209,10 @@ def build(rng):
         s.spk, items = inner_script(s, "ms", False)
         ss = b"".join(G.push(x) for x in items())
     elif form == "bare-free":
-        s.spk, items = inner_script(s, "free", False)
+        s.spk, items = inner_script(s, rng.choice(["free", "locktime"]), False)
         ss = b"".join(G.push(x) for x in items())
     elif form == "p2sh":
-        redeem, items = inner_script(s, rng.choice(["pk", "ms", "free", "codesep"]), False)
+        redeem, items = inner_script(s, rng.choice(["pk", "ms", "free", "codesep", "locktime"]), False)
         s.spk = b"\xa9" + G.push(hash160(redeem)) + b"\x87"
         ss = b"".join(G.push(x) for x in items()) + G.push(redeem)
     elif form in ("p2wpkh", "p2sh-p2wpkh"):
@@ -217,7 +227,7 @@ def build(rng):
             ss = G.push(prog)
         wit = [s.ecdsa(q, code, True, rng.choice(SIG_MUTS)), pk]
     elif form in ("p2wsh", "p2sh-p2wsh"):
-        ws, items = inner_script(s, rng.choice(["pk", "ms", "free", "free", "codesep"]), True)
+        ws, items = inner_script(s, rng.choice(["pk", "ms", "free", "free", "codesep", "locktime"]), True)
         prog = b"\x00" + G.push(sha256(ws))
         if form == "p2wsh":
             s.spk = prog
@@ -237,7 +247,8 @@ def build(rng):
             label += "+annex"
     elif form == "p2tr-script":
         q = KEYS[3]
-        kind = rng.choice(["checksig", "checksig", "csa", "free", "success", "leafver", "ff", "codesep", "upgkey"])
+        kind = rng.choice(["checksig", "checksig", "csa", "free", "success", "leafver", "ff", "codesep", "upgkey", "budget",
+                           "locktime"])
         leaf_ver = 0xC0
         k1, k2 = KEYS[0], KEYS[1]
         if kind in ("checksig", "upgkey"):
@@ -246,6 +257,13 @@ def build(rng):
             leaf = b"\x51\x75\xab" + G.push(xonly(k1)) + b"\xac"
         elif kind == "csa":
             leaf = G.push(xonly(k1)) + b"\xac" + G.push(xonly(k2)) + b"\xba\x52\x87"
+        elif kind == "budget":
+            # budget = 50 + serialized witness size: k non-empty signatures against an upgradable 33-byte key
+            unit = G.push(b"\x02" + bytes(32)) + b"\xac\x75"          # <key33> CHECKSIG DROP, signature from the witness
+            nsig = rng.choice([1, 2, 3, 4, 5, 6])
+            leaf = unit * nsig + b"\x51"
+        elif kind == "locktime":
+            leaf = inner_script(s, "locktime", True)[0]
         elif kind == "free":
             leaf = rng.choice([b"\x51", b"\x00", b"\x51\x51", b"\x63\x51\x67\x00\x68", b"\x02\x00\x00\x63\x51\x68\x51"])
         elif kind == "success":
@@ -273,6 +291,15 @@ def build(rng):
         elif kind == "csa":
             ext = lh + b"\x00" + (0xFFFFFFFF).to_bytes(4, "little")
             items = [s.schnorr(k2, 1, annex, ext, rng.choice(SCHNORR_MUTS)), s.schnorr(k1, 1, annex, ext, rng.choice(SCHNORR_MUTS))]
+        elif kind == "budget":
+            items = [rng.choice([b"\x01", b"\x01", b""]) for _ in range(nsig)]
+            if rng.random() < 0.5:
+                # pad the witness so that the budget lands on 50*nsig - 1 / 50*nsig / 50*nsig + 1
+                base = SP.witness_size(items + [leaf, control] + ([annex] if annex else []))
+                want = 50 * sum(1 for x in items if x) + rng.choice([-1, 0, 1]) - 50
+                pad = want - base - 1
+                if 0 <= pad <= 520 and annex == b"":
+                    annex = b"\x50" + bytes(max(pad - 1, 0)) if pad >= 1 else b""
         elif kind == "free" and leaf == b"\x63\x51\x67\x00\x68":
             items = [rng.choice([b"\x01", b"", b"\x02", b"\x01\x00"])]
         wit = items + [leaf, control]
@@ -295,7 +322,7 @@ def build(rng):
     # structural mutations
     m = rng.choice(["none"] * 10 + ["ss_extra_push", "ss_pushdata1", "ss_nonempty", "wit_unexpected", "wit_extra", "wit_drop",
                                     "wit_script_flip", "ctrl_flip", "ctrl_trunc", "oversize", "ss_nonpush", "ss_extra_tail",
-                                    "prog_flip", "ss_empty"])
+                                    "prog_flip", "ss_empty", "ss_pushdata2", "parity_flip", "annex_like", "annex_like"])
     if m == "ss_extra_push":
         ss = rng.choice([b"\x02\x01\x02", b"\x00", b"\x51"]) + ss
     elif m == "ss_pushdata1" and ss:
@@ -307,6 +334,24 @@ def build(rng):
         if spans and 0 < spans[-1][0] < 76:
             o, a, b = spans[-1]
             ss = ss[:a] + b"\x4c" + bytes([o]) + ss[a + 1:b]
+    elif m == "ss_pushdata2" and ss:
+        from btclib.script.script import op_code_spans
+        spans = list(op_code_spans(ss))
+        if spans and 0 < spans[-1][0] < 76:
+            o, a, b = spans[-1]
+            w = rng.choice([2, 4])
+            ss = ss[:a] + bytes([0x4D if w == 2 else 0x4E]) + o.to_bytes(w, "little") + ss[a + 1:b]
+    elif m == "parity_flip" and form == "p2tr-script":
+        i = -2 if wit[-1][:1] == b"\x50" and len(wit) >= 3 else -1
+        if wit[i]:
+            wit[i] = bytes([wit[i][0] ^ 1]) + wit[i][1:]
+    elif m == "annex_like" and wit:
+        # what is, and what is almost, an annex: tag 0x50 last / not last, 0x4f, 0x51, empty, on a one-element stack
+        tag = rng.choice([b"\x50", b"\x50\x01", b"\x4f", b"\x51", b"", b"\x50" + bytes(600)])
+        if rng.random() < 0.7:
+            wit = wit + [tag]
+        else:
+            wit = [tag] + wit
     elif m == "ss_nonempty":
         ss = ss + rng.choice([b"\x00", b"\x51", b"\x61"])
     elif m == "ss_extra_tail":
@@ -376,7 +421,10 @@ def corpus():
     fl = closed(["P2SH", "WITNESS"])
     out = []
     for name, ss in (("exact", G.push(prog)), ("extra-push", b"\x02\x01\x02" + G.push(prog)),
-                     ("pushdata1", b"\x4c" + bytes([len(prog)]) + prog), ("extra-op0", b"\x00" + G.push(prog))):
+                     ("pushdata1", b"\x4c" + bytes([len(prog)]) + prog), ("extra-op0", b"\x00" + G.push(prog)),
+                     ("pushdata2", b"\x4d" + len(prog).to_bytes(2, "little") + prog),
+                     ("pushdata4", b"\x4e" + len(prog).to_bytes(4, "little") + prog),
+                     ("trailing-nop", G.push(prog) + b"\x61"), ("empty", b"")):
         out.append(("corpus:p2sh-p2wsh/" + name, fl, ss, spk, [redeem_ws], 0))
         out.append(("corpus:p2sh-p2wsh-noflag/" + name, "P2SH", ss, spk, [redeem_ws], 0))
     q = KEYS[3]
